@@ -21,17 +21,20 @@ MANIFEST = dict(
           "and every fuel, the heap holds a tree without sharing or cycles in which the root has no parent, every child's parent link points "
           "back and every non-root node is a child of the node its parent link names (c02_ptr_history_parent_links), the reported size equals "
           "the number of nodes (c02_ptr_history_size) and, for every lawful comparator, the keys met by the in-order walk along the child "
-          "pointers are strictly ascending (c02_ptr_history_ordered); proved through a "
+          "pointers are strictly ascending (c02_ptr_history_ordered), and the tree is red-black coloured - black root, no red node with a red "
+          "child, equal black height on every path (c02_ptr_history_rb) - hence at most 2*log2(n+1) high (c02_ptr_history_height); proved through a "
           "contract for all syntactically safe procedures (one induction over the syntax, so the fix-up procedures are covered whatever "
           "they do with colours) and lemmas for rotateLeft, rotateRight, addNode, deleteNode, findSuccessor (returns the in-order successor) and "
-          "fixAfterDelete (its leaf argument stays a leaf and is never rotated up to the root). The translated program is run "
+          "fixAfterDelete (its leaf argument stays a leaf and is never rotated up to the root), and the CLRS insertion and deletion fix-up "
+          "arguments on the iterative parent-pointer code (RBPtrInsRB, RBPtrDelRB). The translated program is run "
           "against the real tree on every trace (area rbptr: results, size, colour/key/shape dump after every call)."),
     note=COMMON_NOTE + " Parent pointers do not exist in the functional model; their consistency is proved for the MiniGo "
          "translation of the source (regenerated on every run) and additionally established by the audit walker on the implementation "
          "after every call. Trusted there: the translator harness/minigo (a syntax dump) and the interpreter's reading of Go "
          "(evaluation order, nil dereference, loops) - both exercised against the real code by the rbptr correspondence; the pointer-level "
-         "theorems assume the operation returns (no panic, enough fuel); the functional and the pointer-level model are related only "
-         "through the real code (both must reproduce its dumps).",
+         "theorems assume the operation returns (no panic, enough fuel: established for the real code by the correspondence and for the "
+         "functional model by its no-panic theorems); the functional and the pointer-level model are related only through the real code "
+         "(both must reproduce its dumps).",
     technique="Lean 4 invariant proof over all histories (red-black invariants preserved by insert/delete fix-ups; height bound; "
               "pointer-level parent/child consistency proved about the Go source translated to a deep embedding on every run) + "
               "white-box trace-acceptance correspondence and implementation-side audit",
